@@ -339,6 +339,26 @@ func (c *Ctx) c16corpus() {
 		c.Emit("c16.holds.eq_scan", "within@corpus "+c16cnt(res)+" "+c16cnt([]int{i}), "true")
 		c.Emit("c16.oct.within", enc+" "+c16v(p)+" "+F(0), c16ids(res))
 	}
+	// (3) PointInSide accepted points on the extension of edge BC (fixed by f8880ab): the triangle's "closest point"
+	// was the query itself, outside the triangle and its box, and the octree answer depended on the depth
+	tv := []v3{
+		vector3.New(0., 0., 0.), vector3.New(1., 0., 0.), vector3.New(0., 1., 0.),
+		vector3.New(2., -1.5, 0.), vector3.New(3., -1.5, 0.), vector3.New(2., -2.5, 0.),
+	}
+	tm := modeling.NewTriangleMesh([]int{0, 1, 2, 3, 4, 5}).SetFloat3Attribute(modeling.PositionAttribute, tv)
+	q := vector3.New(2., -1., 0.)
+	telems := c16scope(tm)
+	tenc := "tri 2 " + c16v(tv[0]) + " " + c16v(tv[1]) + " " + c16v(tv[2]) + " " + c16v(tv[3]) + " " + c16v(tv[4]) + " " + c16v(tv[5])
+	for d := 0; d <= 2; d++ {
+		id, pt := tm.OctTreeDepth(d).ClosestPoint(q)
+		d2s := []float64{telems[0].ClosestPoint(q).DistanceSquared(q), telems[1].ClosestPoint(q).DistanceSquared(q)}
+		own := pt
+		if id >= 0 && id < 2 {
+			own = telems[id].ClosestPoint(q)
+		}
+		c.Emit("c16.holds.closest", "corpus "+fmt.Sprint(id)+" "+F(pt.DistanceSquared(q))+" "+c16v(pt)+" "+c16v(own)+" 2 "+Fs(d2s...), "true")
+		c.Emit("c16.oct.closestu", fmt.Sprint(d)+" "+tenc+" "+c16v(q), fmt.Sprint(id)+" "+F(pt.DistanceSquared(q))+" "+c16v(pt))
+	}
 	// (2) sphere box of half the size (fixed by 26964ba): a ray that hits the sphere off-centre
 	sp := rendering.NewSphere(vector3.New(0., 0., 0.), 1, nil)
 	ray := rendering.NewTemporalRay(vector3.New(0.8, 0., -5.), vector3.New(0., 0., 1.), 0)
